@@ -18,7 +18,9 @@ import (
 	"fmt"
 	"io"
 	"net/http"
+	"runtime"
 	"runtime/debug"
+	"strings"
 	"sync"
 	"unsafe"
 
@@ -115,6 +117,74 @@ type stream struct {
 	flushCount int
 	stalled    bool // the client does not read and the connection's buffers are full
 	srvCtxID   uintptr
+	nonAtomic  bool   // Write/Flush take time (see NonAtomicWriter)
+	busyTID    int    // thread currently inside Write/Flush (0 = none)
+	busyOp     string // what that thread is doing, with its library call site
+}
+
+// NonAtomicWriter switches on the model of net/http's contract that an http.ResponseWriter must
+// not be used by two goroutines at once: Write and Flush are no longer one atomic step but
+// "begin, scheduling point, commit". If another thread begins an operation on the same
+// ResponseWriter in between, that is exactly the interleaving in which net/http's buffered,
+// chunked writer is corrupted (and a data race): it is reported through OnMisuse. The exchanges of
+// a Fabric take the value the variable has when the request is sent. Scenarios that care switch
+// it on (it adds one scheduling point per write).
+var NonAtomicWriter bool
+
+// OnMisuse receives a description of each concurrent use of one ResponseWriter (set by the harness).
+var OnMisuse func(key, msg string)
+
+//go:norace
+func libCaller() string {
+	pcs := make([]uintptr, 24)
+	n := runtime.Callers(3, pcs)
+	fr := runtime.CallersFrames(pcs[:n])
+	for {
+		f, more := fr.Next()
+		if strings.Contains(f.Function, "trpc-mcp-go") && !strings.Contains(f.Function, "verif.local") {
+			fn := f.Function
+			if i := strings.LastIndex(fn, "/"); i >= 0 {
+				fn = fn[i+1:]
+			}
+			if i := strings.Index(fn, "."); i >= 0 {
+				fn = fn[i+1:]
+			}
+			return fn
+		}
+		if !more {
+			return "?"
+		}
+	}
+}
+
+// begin marks the start of a Write/Flush by the calling thread, reports an overlap, and yields.
+//
+//go:norace
+func (st *stream) begin(op string) {
+	if !st.nonAtomic || vsched.Exiting() {
+		return
+	}
+	me := vsched.ThreadID()
+	site := op + " in " + libCaller()
+	if st.busyTID != 0 && st.busyTID != me {
+		a, b := st.busyOp, site
+		if b < a {
+			a, b = b, a
+		}
+		if OnMisuse != nil {
+			OnMisuse("responsewriter-concurrent-use:"+a+"|"+b, fmt.Sprintf("%s %s: %s began while %s was still in progress on the same http.ResponseWriter (net/http forbids concurrent use: buffer corruption / data race)", st.x.Method, st.x.Path, site, st.busyOp))
+		}
+		return // the overlapping operation is not tracked itself
+	}
+	st.busyTID, st.busyOp = me, site
+	vsched.YieldObj("net."+op+".commit", st.id(), true)
+}
+
+//go:norace
+func (st *stream) end() {
+	if st.busyTID == vsched.ThreadID() {
+		st.busyTID, st.busyOp = 0, ""
+	}
 }
 
 //go:norace
@@ -201,7 +271,7 @@ func (f *Fabric) RoundTrip(req *http.Request) (*http.Response, error) {
 	srvID := vsched.CtxID(srvCtx)
 	srvCancel := func() { realCancel() }
 	_ = srvID
-	st := &stream{x: x, header: http.Header{}, reqCtx: req.Context(), srvCancel: srvCancel, onHeaders: f.OnHeaders, srvCtxID: srvID}
+	st := &stream{x: x, header: http.Header{}, reqCtx: req.Context(), srvCancel: srvCancel, onHeaders: f.OnHeaders, srvCtxID: srvID, nonAtomic: NonAtomicWriter}
 	x.st = st
 	sreq, err := http.NewRequestWithContext(srvCtx, req.Method, req.URL.String(), bytes.NewReader(body))
 	if err != nil {
@@ -344,6 +414,8 @@ func (x *Exchange) Stall(on bool) {
 func (w *ResponseWriter) Write(b []byte) (int, error) {
 	st := w.st
 	vsched.BlockObj("net.write", writeProbe{st}, st.id(), true)
+	st.begin("Write")
+	defer st.end()
 	if !st.wroteHdr {
 		w.WriteHeader(http.StatusOK)
 	}
@@ -365,6 +437,8 @@ func (w *ResponseWriter) Write(b []byte) (int, error) {
 func (w *ResponseWriter) Flush() {
 	st := w.st
 	vsched.YieldObj("net.flush", st.id(), true)
+	st.begin("Flush")
+	defer st.end()
 	st.mu.Lock()
 	defer st.mu.Unlock()
 	if st.wclosed {
